@@ -210,6 +210,9 @@ struct ValInfo {
     /// written by an interposed action while a clear() was under way: may survive it or be
     /// dropped by it without callback
     lenient: bool,
+    /// virtual time of the write and the TTL given (0 = none)
+    written_at: i64,
+    ttl: i64,
 }
 
 struct Model {
@@ -246,7 +249,7 @@ impl Model {
 /// what an interposed action did (recorded inside the yield hook, absorbed afterwards)
 #[derive(Clone, Debug)]
 pub enum NObs {
-    Ins { k: u64, v: Val, r: Result<bool, String> },
+    Ins { k: u64, v: Val, ttl: i64, r: Result<bool, String> },
     Rem { k: u64, r: Result<(), String> },
     Get { k: u64, got: Option<Val> },
     Step(String),
@@ -297,6 +300,9 @@ pub struct Interp<'a> {
     lookups_since_clear: u64,
     all_deadlines: Vec<i64>,
     interposed_serial_base: u32,
+    in_interposed_op: bool,
+    /// values written before a remove() that returned Ok: dead at the next quiescent point at the latest
+    kills_at_quiescence: Vec<Val>,
     any_err: bool,
     /// stop evaluating (something voided the rest of the case)
     halted: bool,
@@ -386,6 +392,8 @@ impl<'a> Interp<'a> {
             lookups_since_clear: 0,
             all_deadlines: Vec::new(),
             interposed_serial_base: 0,
+            in_interposed_op: false,
+            kills_at_quiescence: Vec::new(),
             any_err: false,
             halted: false,
         })
@@ -446,10 +454,13 @@ impl<'a> Interp<'a> {
         let obs: Vec<NObs> = std::mem::take(&mut *self.nested.borrow_mut());
         for o in obs {
             match o {
-                NObs::Ins { k, v, r } => {
-                    self.tr(|| format!("    (interposed) insert(k{}, {}) = {:?}", k, v, r));
+                NObs::Ins { k, v, ttl, r } => {
+                    self.tr(|| format!("    (interposed) insert(k{}, {}, ttl {}ns) = {:?}", k, v, ttl, r));
+                    if ttl > 0 {
+                        self.all_deadlines.push(self.m.now + ttl);
+                    }
                     match r {
-                        Ok(true) => self.accept(k, v, false),
+                        Ok(true) => self.accept_ttl(k, v, false, ttl),
                         Ok(false) => {}
                         Err(_) => {
                             self.any_err = true;
@@ -502,12 +513,19 @@ impl<'a> Interp<'a> {
     }
 
     fn accept(&mut self, k: u64, v: Val, in_place: bool) {
+        self.accept_ttl(k, v, in_place, -1);
+    }
+
+    /// ttl < 0: unknown (in-place writes keep the entry's deadline)
+    fn accept_ttl(&mut self, k: u64, v: Val, in_place: bool, ttl: i64) {
         self.vals.insert(
             v,
             ValInfo {
                 key: k,
                 epoch: self.epoch,
                 in_place,
+                written_at: self.m.now,
+                ttl,
                 ..Default::default()
             },
         );
@@ -645,6 +663,16 @@ impl<'a> Interp<'a> {
         let (pi, pc, _) = self.sut.pending();
         let quiescent = pi == 0 && pc == 0;
         if quiescent {
+            for v in std::mem::take(&mut self.kills_at_quiescence) {
+                if let Some(i) = self.vals.get_mut(&v) {
+                    i.dead = true;
+                }
+            }
+            // C02: nothing written before a remove/clear that has taken effect is resident
+            let stale = snap.entries.iter().find(|e| self.vals.get(&e.value).map(|i| i.dead && !i.in_place).unwrap_or(false)).map(|e| e.value);
+            if let Some(v) = stale {
+                self.fail("stale_resident", &["C02"], format!("{}: quiescent, value {} is resident although a remove/clear issued after it was written has taken effect", what, v));
+            }
             // C06
             if !self.any_err {
                 let sk: Vec<u64> = snap.entries.iter().map(|e| e.index).collect();
@@ -1356,7 +1384,7 @@ impl<'a> Interp<'a> {
             }
         };
         if ret {
-            self.accept(k, v, false);
+            self.accept_ttl(k, v, false, ttl);
         }
         if !self.m.synced {
             self.note_events(&log);
@@ -1491,6 +1519,11 @@ impl<'a> Interp<'a> {
         let log = self.sut.take_log();
         self.tr(|| format!("remove(k{} -> idx {}) = {:?}", k, index, r));
         let kills: Vec<Val> = self.written.get(&k).cloned().unwrap_or_default();
+        if r.is_ok() {
+            // the caller was told the remove went through: once the cache is quiescent nothing
+            // written under k before this call may be served any more
+            self.kills_at_quiescence.extend(kills.iter().copied());
+        }
         if !self.m.synced {
             self.note_events(&log);
             if r.is_err() {
@@ -1749,12 +1782,15 @@ impl<'a> Interp<'a> {
             self.feats.waits_with_pending += 1;
         }
         let full = self.m.pending.len() >= self.cfg.buffer_size;
-        if self.m.synced && !full {
-            self.m.pending.push_back(MItem::Wait);
-        }
         let (r, steps) = self.sut.wait();
         let n = steps.len();
         self.tr(|| format!("wait() = {:?} after {} processor steps", r, n));
+        // the marker wait() queues (if it queues one) is handled after everything buffered
+        // before it; a wait() that returns without queuing anything is fine as long as nothing
+        // was pending
+        if self.m.synced && !full && r.is_ok() && n > self.m.pending.len() {
+            self.m.pending.push_back(MItem::Wait);
+        }
         for s in steps {
             match s.kind {
                 StepKind::Insert => self.model_proc_insert(s.log, s.costs),
@@ -1853,6 +1889,27 @@ impl<'a> Interp<'a> {
             self.fail("processor_error", &["C20"], format!("cleanup reported {}", e));
         }
         self.last_tick_at = Some(self.m.now);
+        // model-free: whatever the cleanup hands to on_evict must have been written with a TTL
+        // that has elapsed
+        // (not for a tick that client actions were interposed into: a client update racing the
+        // sweep is outside the schedule-free quantifiers of C03-C05)
+        self.absorb_nested();
+        let now = self.m.now;
+        let skip = self.in_interposed_op;
+        for e in log.iter().filter(|_| !skip) {
+            if let Ev::Evict(v, index, ..) = e {
+                if let Some(i) = self.vals.get(v).cloned() {
+                    if !i.in_place && i.ttl >= 0 && (i.ttl == 0 || now - i.written_at < i.ttl) {
+                        let why = if i.ttl == 0 { "was written without TTL".to_string() } else { format!("expires only at {}", i.written_at + i.ttl - T0) };
+                        self.fail(
+                            "tick_evicts_unexpired",
+                            &["C05", "C04", "C03", "C11"],
+                            format!("cleanup at {} handed {} (index {}) to on_evict although it {}", now - T0, v, index, why),
+                        );
+                    }
+                }
+            }
+        }
         self.model_tick(log, periodic);
     }
 
@@ -1968,7 +2025,10 @@ impl<'a> Interp<'a> {
         let nkeys = self.cfg.keys.len() as u64;
         let mut seen = 0usize;
         let mut fired = false;
-        stretto::verif::set_thread_yield_hook(Some(Box::new(move |id| {
+        // a synchronous clear() steps the processor from a first-level hook of its own: yield
+        // points reached in there go to the second-level hook
+        let level2 = matches!(then, Op::Clear { .. }) && !self.sut.is_async();
+        let hook: Box<dyn FnMut(&'static str)> = Box::new(move |id| {
             if fired || id != at {
                 return;
             }
@@ -1984,14 +2044,14 @@ impl<'a> Interp<'a> {
                         serial.set(serial.get() + 1);
                         let v = Val { key: k as u32, serial: serial.get(), tag: *tag };
                         let r = sut.insert(k, v, *cost, dur(*ttl));
-                        nested.borrow_mut().push(NObs::Ins { k, v, r });
+                        nested.borrow_mut().push(NObs::Ins { k, v, ttl: *ttl, r });
                     }
                     Op::InsertIfPresent { k, cost, tag } => {
                         let k = *k % nkeys;
                         serial.set(serial.get() + 1);
                         let v = Val { key: k as u32, serial: serial.get(), tag: *tag };
                         let r = sut.insert_if_present(k, v, *cost);
-                        nested.borrow_mut().push(NObs::Ins { k, v, r });
+                        nested.borrow_mut().push(NObs::Ins { k, v, ttl: 0, r });
                     }
                     Op::Remove { k } => {
                         let k = *k % nkeys;
@@ -2031,11 +2091,19 @@ impl<'a> Interp<'a> {
                     _ => {}
                 }
             }
-        })));
+        });
+        if level2 {
+            stretto::verif::set_thread_yield_hook2(Some(hook));
+        } else {
+            stretto::verif::set_thread_yield_hook(Some(hook));
+        }
         // run the outer op through the ordinary path (desynced: history oracles only)
         let then = then.clone();
+        self.in_interposed_op = true;
         self.exec_inner(&then);
+        self.in_interposed_op = false;
         stretto::verif::set_thread_yield_hook(None);
+        stretto::verif::set_thread_yield_hook2(None);
         self.absorb_nested();
         let log = self.sut.take_log();
         self.note_events(&log);
